@@ -3,7 +3,7 @@
     rebench/model/run_id.py by the correspondence check harness/c03.py. *)
 From Coq Require Import List ZArith NArith Bool.
 Import ListNotations.
-From RV Require Import Lib.Str Model.Cmdline Proofs.CmdlineP Gen.GenFactsBuild Gen.GenFactsLaunch.
+From RV Require Import Lib.Str Model.Cmdline Proofs.CmdlineP Gen.GenFactsBuild Gen.GenFactsLaunch Gen.GenPar.
 Local Open Scope N_scope.
 
 (** Python's `template % mapping`, as modelled, reads a rendered template back as the pieces it
@@ -50,16 +50,18 @@ Print Assumptions C03_no_tilde_unchanged.
 (** The plan (-p): Executor.execute_run, read off executor.py on every run as the list of its steps.  The plan branch comes
     after the steps that only look up the adapter and assemble the command line, before the start of a run is reported,
     before any build and before any process; it consists of print calls only - the directory when the run has one, then the
-    command line (the one C03_next_invocation describes) - and returns. *)
+    command line (the one C03_next_invocation describes) - and returns.  The plan is printed by one thread: the parallel
+    scheduler is never chosen in plan mode (plan_is_sequential, read off _create_scheduler; before the repair 06fd2ca its
+    worker threads interleaved the lines of different runs). *)
 Theorem C03_plan_before_any_effect :
-  plan_branch = [PCdLocationIfAny; PCmdline]
+  plan_branch = [PCdLocationIfAny; PCmdline] /\ plan_is_sequential = true
   /\ exists pre post,
        execute_run_steps = pre ++ XPlanOrGoOn :: post
        /\ (forall s, In s pre -> s = XAdapter \/ s = XStopIfNoAdapter \/ s = XCmdline)
        /\ In XReportStart post /\ (exists g, In (XBuildIf g) post) /\ (exists g, In (XProcessIf g) post)
        /\ ~ In XPlanOrGoOn post.
 Proof.
-  split; [reflexivity|].
+  split; [reflexivity|]. split; [reflexivity|].
   exists [XAdapter; XStopIfNoAdapter; XCmdline].
   eexists. split; [reflexivity|]. split.
   - intros s [<-|[<-|[<-|[]]]]; auto.
